@@ -1,14 +1,113 @@
+mod asm;
+mod inst;
+mod names;
+mod player;
 mod vk;
 
+use serde_json::json;
+
+fn smoke() -> i32 {
+    let dir = tempfile::TempDir::new().unwrap();
+    brc20_prog::verif::set_config(inst::config("regtest", true, dir.path()));
+    let rt = inst::runtime();
+    let mut i = inst::Instance::open(rt, dir.path()).unwrap();
+    println!("methods: {:?}", i.method_names());
+    let h = |n: u8| format!("0x{}", hex::encode([[0xaau8; 1].as_slice(), &[0u8; 30], &[n]].concat()));
+    println!("init: {:?}", i.call("brc20_initialise", json!([h(0), 1, 0])));
+    let code = format!("0x{}", hex::encode(asm::initcode(&asm::cell_runtime())));
+    let pk = "5120aabbccddeeff00112233445566778899aabbccddeeff00112233445566778899";
+    let r = i.call("brc20_deploy", json!({"from_pkscript": pk, "data": code, "timestamp": 5, "hash": h(1), "tx_idx": 0, "inscription_id": "i1", "inscription_byte_len": 100000, "op_return_tx_id": h(9)}));
+    println!("deploy: {}", serde_json::to_string(&r.ok()).unwrap());
+    let addr = r.ok().unwrap()["contractAddress"].clone();
+    let ops = json!([{"op":"sstore","s":5,"v":7},{"op":"log","t":[1,2]},{"op":"create"},{"op":"sub","ops":[{"op":"sstore","s":6,"v":1},{"op":"revert"}]}]);
+    let data = format!("0x{}", hex::encode(asm::encode_ops(&ops)));
+    let r = i.call("brc20_call", json!({"from_pkscript": pk, "contract_address": addr, "data": data, "timestamp": 5, "hash": h(1), "tx_idx": 1, "inscription_id": "i2", "inscription_byte_len": 100000, "op_return_tx_id": h(9)}));
+    println!("call: {}", serde_json::to_string(&r.ok()).unwrap());
+    let txh = r.ok().unwrap()["transactionHash"].clone();
+    println!("fin: {:?}", i.call("brc20_finaliseBlock", json!([5, h(1), 2])));
+    println!("block: {}", serde_json::to_string(&i.call("eth_getBlockByNumber", json!(["1", true])).ok()).unwrap());
+    println!("tx: {}", serde_json::to_string(&i.call("eth_getTransactionByHash", json!([txh])).ok()).unwrap());
+    println!("trace: {}", serde_json::to_string(&i.call("debug_traceTransaction", json!([txh])).ok()).unwrap());
+    println!("logs: {}", serde_json::to_string(&i.call("eth_getLogs", json!([{"fromBlock":"1","toBlock":"1"}])).ok()).unwrap());
+    println!("pool: {}", serde_json::to_string(&i.call("txpool_content", json!([])).ok()).unwrap());
+    println!("code: {:?}", i.call("eth_getCode", json!([addr])).ok().map(|c| c.to_string().len()));
+    println!("slot5: {:?}", i.call("eth_getStorageAt", json!([addr, "0x5"])));
+    println!("slot6: {:?}", i.call("eth_getStorageAt", json!([addr, "0x6"])));
+    println!("nonce c: {:?}", i.call("eth_getTransactionCount", json!([addr, "latest"])));
+    println!("rawhdr: {:?}", i.call("debug_getRawHeader", json!(["1"])));
+    println!("rawrc: {:?}", i.call("debug_getRawReceipts", json!(["1"])));
+    println!("tracestr: {:?}", i.call("debug_getBlockTraceString", json!(["1"])));
+    println!("insc: {:?}", i.call("brc20_getInscriptionIdByContractAddress", json!([addr])));
+    println!("bal: {:?}", i.call("brc20_balance", json!([pk, "ordi"])));
+    i.close();
+    0
+}
+
+/// TLC's Json module rejects null: use the sentinel "NULL"
+fn denull(v: &mut serde_json::Value) {
+    match v {
+        serde_json::Value::Null => *v = json!("NULL"),
+        serde_json::Value::Array(a) => a.iter_mut().for_each(denull),
+        serde_json::Value::Object(o) => o.values_mut().for_each(denull),
+        _ => {}
+    }
+}
+
+/// vh play <schedules.ndjson> <trace.ndjson> [net] [traces on|off]
+fn play(args: &[String]) -> i32 {
+    use std::io::{BufRead, Write};
+    let net = args.get(2).map(|s| s.as_str()).unwrap_or("regtest");
+    let traces = args.get(3).map(|s| s != "off").unwrap_or(true);
+    let f = std::fs::File::open(&args[0]).expect("schedules");
+    let mut out = std::io::BufWriter::new(std::fs::File::create(&args[1]).expect("trace file"));
+    let rt = inst::runtime();
+    let mut runs = 0u64;
+    let mut events = 0u64;
+    let mut calls = 0u64;
+    for line in std::io::BufReader::new(f).lines() {
+        let line = line.unwrap();
+        if line.trim().is_empty() {
+            continue;
+        }
+        let sched: serde_json::Value = serde_json::from_str(&line).expect("schedule json");
+        let dir = tempfile::TempDir::new().unwrap();
+        let mut p = match player::Player::new(rt.clone(), dir.path(), net, traces) {
+            Ok(p) => p,
+            Err(e) => {
+                eprintln!("cannot open instance: {}", e);
+                return 2;
+            }
+        };
+        p.light_obs = sched["light"].as_bool().unwrap_or(false);
+        runs += 1;
+        writeln!(out, "{}", json!({"ev": "Reset", "run": sched["run"], "res": "ok", "traces": traces, "net": net})).unwrap();
+        for step in sched["steps"].as_array().cloned().unwrap_or_default() {
+            let mut ev = p.step(&step);
+            denull(&mut ev);
+            events += 1;
+            writeln!(out, "{}", ev).unwrap();
+        }
+        calls += p.inst.calls;
+        p.inst.close();
+    }
+    out.flush().unwrap();
+    println!("{}", json!({"runs": runs, "events": events, "rpc_calls": calls}));
+    0
+}
+
 fn main() {
-    std::panic::set_hook(Box::new(|_| {}));
     let args: Vec<String> = std::env::args().collect();
     if args.len() < 2 {
         eprintln!("usage: vh <command> ...");
         std::process::exit(2);
     }
+    if args[1] != "smoke" {
+        std::panic::set_hook(Box::new(|_| {}));
+    }
     let code = match args[1].as_str() {
         "vk-edges" => vk::run(&args[2], args[3].parse().unwrap(), &args[4]),
+        "smoke" => smoke(),
+        "play" => play(&args[2..]),
         other => {
             eprintln!("unknown command {}", other);
             2
